@@ -6,7 +6,7 @@ use std::sync::Arc;
 
 use ckb_logger::{debug, error, info, trace, warn};
 use ckb_network::{CKBProtocolContext, CKBProtocolHandler, PeerIndex, async_trait, bytes::Bytes};
-use ckb_shared::Shared;
+use ckb_shared::{Shared, Snapshot};
 use ckb_store::ChainStore;
 use ckb_types::{core, packed, prelude::*};
 
@@ -209,6 +209,7 @@ impl LightClientProtocol {
         &self,
         peer: PeerIndex,
         nc: &Arc<dyn CKBProtocolContext + Sync>,
+        snapshot: &Snapshot,
         last_block: &core::BlockView,
         items_positions: Vec<u64>,
         proved_items: <<T as Entity>::Builder as ProverMessageBuilder>::ProvedItems,
@@ -230,7 +231,8 @@ impl LightClientProtocol {
             }
             (Default::default(), Default::default())
         } else {
-            let snapshot = self.shared.snapshot();
+            // The proof is built from the snapshot in which the handler has looked the request
+            // up: a newer one may already describe another chain.
             let mmr = snapshot.chain_root_mmr(last_block.number() - 1);
             let parent_chain_root = match mmr.get_root() {
                 Ok(root) => root,
